@@ -4,6 +4,7 @@ CONSTANTS
   PipeCap = 2
   ReadMax = 2
   Hint = 1
+  FROrder <- CodeOrder
   Deviations = {}
 INVARIANT PrefixAlways
 INVARIANT Complete
